@@ -25,14 +25,34 @@ Proof.
   apply N.eqb_eq in A, B. now subst.
 Qed.
 
+(** two (base, wildcard mask) pairs that denote the same address set: same mask, same base
+    outside the wildcard bits (a base with wildcard bits set is legal text, e.g. under "any") *)
+Definition set_eqb (x y : N * N) : bool :=
+  N.eqb (snd x) (snd y)
+  && N.eqb (N.land (fst x) (N.lxor ALL_ONES (snd x))) (N.land (fst y) (N.lxor ALL_ONES (snd y))).
+
+Lemma set_eqb_sound x y k : set_eqb x y = true -> in_wildb k (fst x) (snd x) = in_wildb k (fst y) (snd y).
+Proof.
+  unfold set_eqb, in_wildb. intros H. apply andb_prop in H as [A B]. apply N.eqb_eq in A, B.
+  rewrite B. now rewrite A.
+Qed.
+
+Lemma sets_eqb_sound a : forall b k,
+  list_eqb set_eqb a b = true -> in_setsb k a = in_setsb k b.
+Proof.
+  induction a as [|x a IH]; intros [|y b] k E; cbn [list_eqb] in E; try discriminate; auto.
+  apply andb_prop in E as [E1 E2]. unfold in_setsb in *. cbn [existsb].
+  rewrite (set_eqb_sound _ _ k E1). f_equal. now apply IH.
+Qed.
+
 (** same action and same packet set, decided on the objects *)
 Definition port_eqb_sem (p q : port) : bool :=
   Bool.eqb (has_op p) (has_op q) && list_eqb N.eqb (p_ports p) (p_ports q).
 
 Definition ace_eqb_sem (a b : ace) : bool :=
   Bool.eqb (a_permit a) (a_permit b) && N.eqb (a_proto a) (a_proto b)
-  && list_eqb pair_eqb (sets_of (a_src a)) (sets_of (a_src b))
-  && list_eqb pair_eqb (sets_of (a_dst a)) (sets_of (a_dst b))
+  && list_eqb set_eqb (sets_of (a_src a)) (sets_of (a_src b))
+  && list_eqb set_eqb (sets_of (a_dst a)) (sets_of (a_dst b))
   && port_eqb_sem (a_sport a) (a_sport b) && port_eqb_sem (a_dport a) (a_dport b)
   && list_eqb String.eqb (a_flags a) (a_flags b).
 
@@ -49,9 +69,9 @@ Proof.
   unfold ace_eqb_sem. intros H.
   repeat (match type of H with (_ && _) = true => let H' := fresh "E" in apply andb_prop in H as [H H'] end).
   apply Bool.eqb_prop in H. apply N.eqb_eq in E4.
-  apply (list_eqb_eq pair_eqb pair_eqb_eq) in E3, E2.
   apply (list_eqb_eq String.eqb (fun x y E => proj1 (String.eqb_eq x y) E)) in E.
-  split; auto. intros k. unfold denb. rewrite E4, E3, E2, E.
+  split; auto. intros k. unfold denb. rewrite E4, E.
+  rewrite (sets_eqb_sound _ _ (k_src k) E3), (sets_eqb_sound _ _ (k_dst k) E2).
   rewrite (port_eqb_sem_sound _ _ _ _ E1), (port_eqb_sem_sound _ _ _ _ E0). reflexivity.
 Qed.
 
@@ -115,30 +135,147 @@ Proof.
     + apply (IH conv' rest k H); [intros; eauto|]. intros a' Ha'. apply A. now right.
 Qed.
 
+(** what the certificate needs to know about the split of an ACE: same action, same packets *)
+Definition split_sem (pl : platform) (v15 : bool) (a : ace) : Prop :=
+  forall l, split_ace pl v15 a = Ok l ->
+    (forall a', In a' l -> a_permit a' = a_permit a) /\ forall k, denb a k = existsb (fun a' => denb a' k) l.
+
+Lemma split_sem_eq pl v15 a :
+  eq_or_unsplit (a_sport a) -> eq_or_unsplit (a_dport a) -> split_sem pl v15 a.
+Proof. intros Hs Hd l E. now apply (split_denb pl v15 a l). Qed.
+
+(** a split that yields a single entry is checked directly on the objects (single-port neq) *)
+Lemma split_sem_single pl v15 a a' :
+  split_ace pl v15 a = Ok [a'] -> ace_eqb_sem a a' = true -> split_sem pl v15 a.
+Proof.
+  intros E Q l E'. rewrite E in E'. injection E' as <-. destruct (ace_eqb_sem_sound _ _ Q) as [P D]. split.
+  - intros x [<-|[]]. now symmetry.
+  - intros k. cbn. now rewrite orb_false_r.
+Qed.
+
+Definition eq_or_unsplitb (p : port) : bool :=
+  (match p_op p with Some Eq => true | _ => false end && list_eqb N.eqb (p_ports p) (p_items p))
+  || negb (splittable p).
+
+Lemma eq_or_unsplitb_ok p : eq_or_unsplitb p = true -> eq_or_unsplit p.
+Proof.
+  unfold eq_or_unsplitb, eq_or_unsplit. intros H. apply orb_prop in H as [H|H].
+  - apply andb_prop in H as [H1 H2]. left. split.
+    + destruct (p_op p) as [[]|]; try discriminate; reflexivity.
+    + apply (list_eqb_eq N.eqb (fun a b E => proj1 (N.eqb_eq a b) E)) in H2. exact H2.
+  - right. now apply negb_true_iff in H.
+Qed.
+
+(** one side of the split, semantically: the single-port expressions match exactly what the
+    expression matched *)
+Definition side_sem (pl : platform) (c : pctx) (p : port) : Prop :=
+  exists ps, side_ports pl c p = Ok ps /\
+    forall proto x, port_match p proto x <-> exists q, In q ps /\ port_match q proto x.
+
+Lemma side_sem_spec pl c p : eq_or_unsplit p -> side_sem pl c p.
+Proof. intros H. destruct (side_spec pl c p H) as (ps & E & M & _). now exists ps. Qed.
+
+(** an expression whose split is one expression, equal to it on the objects (single-port neq) *)
+Lemma side_sem_single pl c p q : side_ports pl c p = Ok [q] -> port_eqb_sem p q = true -> side_sem pl c p.
+Proof.
+  intros E Q. exists [q]. split; auto. intros proto x.
+  rewrite <- (port_matchb_spec p proto x). rewrite (port_eqb_sem_sound _ _ proto x Q). rewrite port_matchb_spec.
+  split; [intros M; exists q; split; [now left|auto]|intros (q' & [<-|[]] & M); auto].
+Qed.
+
+Lemma split_den_gen pl v15 a :
+  side_sem pl (proto_ctx pl v15 (a_proto a)) (a_sport a) -> side_sem pl (proto_ctx pl v15 (a_proto a)) (a_dport a) ->
+  exists l, split_ace pl v15 a = Ok l /\
+    (forall srcs dsts k, den a srcs dsts k <-> exists a', In a' l /\ den a' srcs dsts k) /\
+    (forall a', In a' l -> a_permit a' = a_permit a /\ a_src a' = a_src a /\ a_dst a' = a_dst a).
+Proof.
+  intros (ss & Es & Ms) (dd & Ed & Md). unfold split_ace. rewrite Es, Ed. cbn [bind].
+  eexists. split; [reflexivity|]. split.
+  - intros srcs dsts k. unfold den. split.
+    + intros (D1 & D2 & D3 & D4 & D5 & D6).
+      apply Ms in D4 as (s0 & Hs' & Ms'). apply Md in D5 as (d0 & Hd' & Md').
+      exists (with_ports a s0 d0). split.
+      * apply in_flat_map. exists s0. split; auto. now apply in_map.
+      * cbn. tauto.
+    + intros (a' & Ha' & (D1 & D2 & D3 & D4 & D5 & D6)).
+      apply in_flat_map in Ha' as (s0 & Hs' & Ha'). apply in_map_iff in Ha' as (d0 & <- & Hd').
+      cbn in *. repeat split; auto.
+      * apply Ms. exists s0. auto.
+      * apply Md. exists d0. auto.
+  - intros a' Ha'. apply in_flat_map in Ha' as (s0 & Hs' & Ha'). apply in_map_iff in Ha' as (d0 & <- & Hd').
+    cbn. repeat split; auto.
+Qed.
+
+Lemma split_sem_sides pl v15 a :
+  side_sem pl (proto_ctx pl v15 (a_proto a)) (a_sport a) -> side_sem pl (proto_ctx pl v15 (a_proto a)) (a_dport a) ->
+  split_sem pl v15 a.
+Proof.
+  intros Hs Hd l E. destruct (split_den_gen pl v15 a Hs Hd) as (l' & E' & M & F). rewrite E in E'. injection E' as <-.
+  split; [intros a' Ha'; now apply F|]. intros k.
+  destruct (denb a k) eqn:D.
+  - symmetry. apply existsb_exists. apply denb_spec in D. apply M in D as (a' & Ha' & D').
+    exists a'. split; auto. apply denb_spec. destruct (F a' Ha') as (_ & S1 & S2). now rewrite S1, S2.
+  - symmetry. apply not_true_is_false. intro C. apply existsb_exists in C as (a' & Ha' & D').
+    apply denb_spec in D'. destruct (F a' Ha') as (_ & S1 & S2). rewrite S1, S2 in D'.
+    assert (den a (sets_of (a_src a)) (sets_of (a_dst a)) k) by (apply M; exists a'; auto).
+    apply denb_spec in H. congruence.
+Qed.
+
+Definition side_certb (pl : platform) (c : pctx) (p : port) : bool :=
+  eq_or_unsplitb p || match side_ports pl c p with Ok [q] => port_eqb_sem p q | _ => false end.
+
+Lemma side_certb_ok pl c p : side_certb pl c p = true -> side_sem pl c p.
+Proof.
+  unfold side_certb. intros H. apply orb_prop in H as [H|H].
+  - apply side_sem_spec. now apply eq_or_unsplitb_ok.
+  - destruct (side_ports pl c p) as [[|q [|? ?]]| | | |] eqn:E; try discriminate.
+    now apply (side_sem_single pl c p q).
+Qed.
+
+Definition split_certb (pl : platform) (v15 : bool) (a : ace) : bool :=
+  side_certb pl (proto_ctx pl v15 (a_proto a)) (a_sport a) && side_certb pl (proto_ctx pl v15 (a_proto a)) (a_dport a).
+
+Lemma split_certb_ok pl v15 a : split_certb pl v15 a = true -> split_sem pl v15 a.
+Proof.
+  unfold split_certb. intros H. apply andb_prop in H as [H1 H2].
+  apply split_sem_sides; now apply side_certb_ok.
+Qed.
+
+Definition split_sem_ok (pl : platform) (v15 : bool) (items : list (item ace)) : Prop :=
+  forall l a, In (IAce l a) items -> split_sem pl v15 a.
+
 Definition splittable_ok (items : list (item ace)) : Prop :=
   forall l a, In (IAce l a) items -> eq_or_unsplit (a_sport a) /\ eq_or_unsplit (a_dport a).
 
-Theorem conversion_decision pl v15 do_split : forall orig conv,
-  splittable_ok orig -> conv_okb pl v15 do_split orig conv = true ->
+Lemma splittable_split_sem pl v15 items : splittable_ok items -> split_sem_ok pl v15 items.
+Proof. intros H l a Hin. destruct (H l a Hin). now apply split_sem_eq. Qed.
+
+Theorem conversion_decision_gen pl v15 do_split : forall orig conv,
+  split_sem_ok pl v15 orig -> conv_okb pl v15 do_split orig conv = true ->
   forall k, decide denb a_permit conv k = decide denb a_permit orig k.
 Proof.
   induction orig as [|o orig IH]; intros conv OKs H k.
   - destruct conv; [reflexivity|discriminate].
-  - assert (OK' : splittable_ok orig) by (intros l a Hin; apply (OKs l a); now right).
+  - assert (OK' : split_sem_ok pl v15 orig) by (intros l a Hin; apply (OKs l a); now right).
     destruct o as [ln a|ln]; cbn [conv_okb] in H.
-    + destruct (OKs ln a (or_introl eq_refl)) as [Hs Hd].
+    + pose proof (OKs ln a (or_introl eq_refl)) as Hsem.
       destruct (if do_split then split_ace pl v15 a else Ok [a]) as [l| | | |] eqn:EL; try discriminate.
       destruct (take_sem l conv) as [conv'|] eqn:ET; [|discriminate].
       assert (SP : (forall a', In a' l -> a_permit a' = a_permit a) /\
                    forall k, denb a k = existsb (fun a' => denb a' k) l).
       { destruct do_split.
-        - now apply (split_denb pl v15 a l).
+        - now apply Hsem.
         - injection EL as <-. split; [intros a' [<-|[]]; reflexivity|]. intros k0. cbn. now rewrite orb_false_r. }
       destruct SP as [ACT DEN].
       rewrite (take_sem_decide l conv conv' k ET (fun a' _ => ex_intro _ _ eq_refl) (a_permit a) ACT).
       cbn [decide]. rewrite DEN. destruct (existsb _ l); auto.
     + destruct conv as [|[?|?] conv']; try discriminate. cbn [decide]. now apply IH.
 Qed.
+
+Theorem conversion_decision pl v15 do_split : forall orig conv,
+  splittable_ok orig -> conv_okb pl v15 do_split orig conv = true ->
+  forall k, decide denb a_permit conv k = decide denb a_permit orig k.
+Proof. intros orig conv H. apply conversion_decision_gen. now apply splittable_split_sem. Qed.
 
 (** re-typing an address for another platform changes its spelling class only *)
 Lemma retype_sets pl a : sets_of (retype pl a) = sets_of a.
@@ -160,3 +297,18 @@ Proof. intros H. now destruct (ace_eqb_sem_sound _ _ H). Qed.
 
 Theorem retype_ace_den pl a k : denb (retype_ace pl a) k = denb a k.
 Proof. unfold denb, retype_ace. cbn [a_proto a_src a_dst a_sport a_dport a_flags]. now rewrite !retype_sets. Qed.
+
+(** the hypothesis of the certificate, as a check *)
+Definition splittable_okb (pl : platform) (v15 : bool) (items : list (item ace)) : bool :=
+  forallb (fun i => match i with IAce _ a => split_certb pl v15 a | IRemark _ => true end) items.
+
+Lemma splittable_okb_ok pl v15 items : splittable_okb pl v15 items = true -> split_sem_ok pl v15 items.
+Proof.
+  unfold splittable_okb, split_sem_ok. rewrite forallb_forall. intros H l a Hin.
+  specialize (H _ Hin). cbn in H. now apply split_certb_ok.
+Qed.
+
+Theorem conversion_decision_checked pl v15 do_split orig conv :
+  splittable_okb pl v15 orig = true -> conv_okb pl v15 do_split orig conv = true ->
+  forall k, decide denb a_permit conv k = decide denb a_permit orig k.
+Proof. intros S. apply conversion_decision_gen. now apply splittable_okb_ok. Qed.
